@@ -82,6 +82,16 @@ def run(ctx: Context) -> None:
     ctx.rule(c05.r2g_constructor_keeps_components)
 
 
+def strip_copy_via(use: str, local: str) -> str:
+    """`store:x:via:copy.deepcopy(local)` -> `store:x`: a copy of the loaded value has the loaded value."""
+    if ":via:" not in use:
+        return use
+    head_, via_ = use.split(":via:", 1)
+    if re.fullmatch(r"(copy\.deepcopy|copy\.copy|np\.array|numpy\.array|np\.asarray|np\.copy|list|tuple|dict)\(\s*" + re.escape(local) + r"\s*(,\s*copy\s*=\s*True\s*)?\)|" + re.escape(local) + r"\.copy\(\)", via_.strip()):
+        return head_
+    return use
+
+
 def _self_path(e: ast.expr, self_name: str | None) -> str | None:
     # a defensive copy of the attribute has the attribute's value: np.array(x[, copy=True]), np.asarray(x), np.copy(x), x.copy()
     for _ in range(3):
